@@ -94,7 +94,11 @@ def _unstruct(v):
 
 
 def language(fx, d):
-    return values(fx.START, d, list(fx.CLASSES))
+    # the symbols are the closure of the supplied classes (classes named by fields, classes between
+    # a supplied class and an abstract symbol above it): same notion as the grammar oracle
+    from vf.oracles.grammar import Analysis
+
+    return values(fx.START, d, list(Analysis(list(fx.CLASSES), fx.START).classes))
 
 
 def depth_s(s) -> int:
